@@ -63,8 +63,9 @@ func genPairFields(r *rand.Rand, k int, generic bool) []pairField {
 	for i := 0; i < n; i++ {
 		nm := fmt.Sprintf("ZqP%dF%d%s", k, i, randAlnum(r, 4))
 		if i == 0 && generic {
-			// the first field has the type parameter's type (instantiated with int)
-			fs = append(fs, pairField{nm, "int", false, "%[1]s." + nm + " = %[2]s", "%[1]s." + nm})
+			// the first field has the type parameter's type; the type argument is any of the menu's
+			// types, including unnamed composite ones ([]int, *T, map, array, struct)
+			fs = append(fs, menu[r.Intn(len(menu))](nm))
 			continue
 		}
 		if !usedEmbed && r.Intn(5) == 0 {
@@ -121,7 +122,7 @@ func genPairProg(r *rand.Rand, npairs int) (*Prog, []StructPair) {
 		typeA := ta
 		if sp.DeclA == "generic" {
 			fmt.Fprintf(&pa, "type %s[T any] %s\n\n", ta, structBody(sp.Fields, tagA, true))
-			typeA = ta + "[int]"
+			typeA = ta + "[" + sp.Fields[0].typ + "]" // the type argument may be a composite type
 		} else {
 			fmt.Fprintf(&pa, "type %s %s\n\n", ta, structBody(sp.Fields, tagA, false))
 		}
